@@ -6,6 +6,7 @@
 #ifdef BR_VERIF
 #include <stdio.h>
 #include <stdlib.h>
+#include <unistd.h>
 #include "inner.h"
 
 int br_verif_seeder_mode = 0;
@@ -20,6 +21,70 @@ br_verif_fail(const char *what, const char *vm, long a, long b)
 	fprintf(stderr, "BR_VERIF_FAIL %s vm=%s a=%ld b=%ld\n", what, vm, a, b);
 	fflush(stderr);
 	abort();
+}
+
+/*
+ * H5: T0 instruction coverage.
+ */
+int br_verif_t0cov_on = -1;
+
+#define T0COV_MAXVM    8
+#define T0COV_MAXLEN   8192
+
+static struct {
+	const char *vm;
+	size_t len;
+	unsigned char seen[T0COV_MAXLEN];
+} t0cov[T0COV_MAXVM];
+static const char *t0cov_dir;
+
+static void
+t0cov_dump(void)
+{
+	int i;
+
+	for (i = 0; i < T0COV_MAXVM && t0cov[i].vm != NULL; i ++) {
+		char path[600];
+		FILE *f;
+
+		snprintf(path, sizeof path, "%s/%s.%ld",
+			t0cov_dir, t0cov[i].vm, (long)getpid());
+		f = fopen(path, "wb");
+		if (f != NULL) {
+			fwrite(t0cov[i].seen, 1, t0cov[i].len, f);
+			fclose(f);
+		}
+	}
+}
+
+void
+br_verif_t0cov(const char *vm, size_t off, size_t len)
+{
+	int i;
+
+	if (br_verif_t0cov_on < 0) {
+		t0cov_dir = getenv("BR_VERIF_T0COV");
+		br_verif_t0cov_on = (t0cov_dir != NULL && t0cov_dir[0] != 0);
+		if (br_verif_t0cov_on) {
+			atexit(t0cov_dump);
+		}
+	}
+	if (!br_verif_t0cov_on || off >= T0COV_MAXLEN) {
+		return;
+	}
+	for (i = 0; i < T0COV_MAXVM; i ++) {
+		if (t0cov[i].vm == vm) {
+			break;
+		}
+		if (t0cov[i].vm == NULL) {
+			t0cov[i].vm = vm;
+			t0cov[i].len = len < T0COV_MAXLEN ? len : T0COV_MAXLEN;
+			break;
+		}
+	}
+	if (i < T0COV_MAXVM) {
+		t0cov[i].seen[off] = 1;
+	}
 }
 
 #if defined(__SANITIZE_ADDRESS__)
